@@ -43,7 +43,7 @@ func spawnPipe[I, O any](capacity int, inputs [][]I, build func(in []<-chan I) [
 		for j, oc := range outs {
 			simrt.GoKind("cons", func() {
 				for {
-					simrt.Yield(-1, "cons-recv")
+					consYield()
 					v, ok := <-oc
 					if !ok {
 						res.Closed[j] = true
